@@ -778,6 +778,9 @@ def open_text(fname):
         buffering=FILE_READ_BUFFER_SIZE,
         encoding=ENCODING,
         errors=ENCODING_ERRS,
+        # Lines end with "\n" only: do not translate "\r" / "\r\n"
+        # (e.g. part of a process cmdline or environ) into "\n".
+        newline="\n",
     )
     try:
         # Dictates per-line read(2) buffer size. Defaults is 8k. See:
